@@ -46,6 +46,15 @@ def gen_ops(rng, tier):
             if cx + cw > fw: cw = max(fw - cx, 0)
             if cy + ch > fh: ch = max(fh - cy, 0)
         ops.append("xform %d %d %d %d %d %d %d %d %d %d %d" % (op, ss, w, h, opts, cx, cy, cw, ch, rng.randrange(1 << 20), int(rng.random() < .2)))
+    # trim + crop with a non-zero offset reaching into the partial iMCU at the mirrored edge
+    for op in range(1, 8):
+        for ss in (0, 2, 1):
+            hs, vs = {0: (1, 1), 1: (2, 1), 2: (2, 2)}[ss]
+            swaps = op in (3, 4, 5, 7)
+            w, h = 3 * hs * 8 + 5, 3 * vs * 8 + 3
+            dh, dv = (vs, hs) if swaps else (hs, vs)
+            for (kx, ky) in ((1, 0), (0, 1), (1, 1)):
+                ops.append("xform %d %d %d %d 6 %d %d 0 0 %d 0" % (op, ss, w, h, kx * dh * 8, ky * dv * 8, rng.randrange(1 << 20)))
     return ops
 
 
